@@ -31,7 +31,7 @@ COMPONENTS = {
     "simulated": ["allocation history between observations (allocsim: held slot objects per size class, churn, recursion, gc)"],
 }
 ASSUMPTIONS = ["pymalloc hands a freed block out again unless it is taken: address-derived hashes are exposed by holding blocks (robust in practice, not guaranteed by the language)"]
-EXPECTED_PROBES = ["guided_interrupt", "alloc_between_hashes", "cross_class_eq", "cross_class_order", "lookup_through_twin", "sorted_heterogeneous",
+EXPECTED_PROBES = ["alloc_between_hashes", "cross_class_eq", "cross_class_order", "lookup_through_twin", "sorted_heterogeneous",
                    "basis_kinds_compared", "transitivity_triple", "vinc_vs_cov", "id_reused", "derived_from_used_object", "interrupted_hash", "flood", "equal_hash_unequal_objects", "interrupted_comparison"]
 
 
